@@ -8,8 +8,8 @@ import subprocess
 
 from . import driver
 
-MIRI_TARGET = os.path.join(driver.VERIF, 'target', 'miri-build')
-TSAN_TARGET = os.path.join(driver.VERIF, 'target', 'tsan-build')
+MIRI_TARGET = os.path.join(driver.TARGET, 'miri-build')
+TSAN_TARGET = os.path.join(driver.TARGET, 'tsan-build')
 
 
 def _env(extra=None):
